@@ -33,6 +33,7 @@ def run(ctx, res):
     r1.rule_peer_controlled_panics(S, res)
     r1.rule_peer_sized_containers(S, res)
     r1.rule_raw_bytes(S, res)
+    r1.rule_wire_decoding(S, res)
     rule_decrypt_result(S, res)
     r1.rule_err_not_dropped(S, res)
     r1.rule_wait_only_on_channel(S, res)
